@@ -3,7 +3,13 @@ import struct
 from ..runner import Spec, Case
 from .. import core
 
-PSIZE = [1, 4, 8, 12, 16, 40]
+PSIZE = [1, 4, 8, 12, 16, 40, 24]          # plain-struct probe types P0..P6 of the harness (bytes)
+RAW_ANY = '0123456'                          # element / Table key and value types of any size (Table and Array round up to words)
+RAW_TREE = '2456'                            # sizes 8, 16, 40, 24: a Tree takes multiples of 8 only (KF-C19-tree-misaligned-header)
+# key / value type pairs of different sizes: narrow key with wide value, wide key with narrow value, both wide and different
+WIDTH_PAIRS_TREE = [('I', '6'), ('I', '5'), ('I', '4'), ('5', 'I'), ('6', 'I'), ('4', '6'), ('6', '4'), ('2', '5'), ('5', '2'), ('S', '6'), ('S', '5'),
+                    ('6', 'S'), ('4', 'F'), ('I', '6'), ('I', '5')]
+WIDTH_PAIRS_TABLE = WIDTH_PAIRS_TREE + [('I', '3'), ('1', '6'), ('3', '1'), ('0', '5'), ('5', '0'), ('1', '3'), ('3', 'S'), ('S', '3'), ('0', 'I')]
 BUILTINS = ['Int', 'Float', 'String', 'Array', 'List', 'Table', 'Tree', 'Tuple', 'Ref', 'Box', 'Type', 'Range', 'Slice', 'File']
 LCM = 5 * 11 * 23 * 53            # Int keys congruent modulo every small Table size collide in all of them
 I64MIN, I64MAX = -2**63, 2**63 - 1
@@ -45,7 +51,7 @@ class G:
         if ty == 'F': return f'f:{self.float_bits():016x}'
         if ty == 'S': return 's:' + self.str_bytes().hex()
         if ty == 'T': return r.choice(['t:', 'u:']) + r.choice(BUILTINS)
-        if ty in '012345':
+        if ty in RAW_ANY:
             k = int(ty); n = PSIZE[k]
             b = bytes(r.randrange(256) for _ in range(n)) if r.random() < 0.6 else bytes([r.choice([0, 1, 255])] * n)
             return f'p{k}:' + b.hex()
@@ -150,7 +156,7 @@ def build_seq(g, L, kind, ety, content, style):
 def seq_case(rng, name, rounds, maxlen):
     g = G(rng); L = []
     for _ in range(rounds):
-        ety = rng.choice('IIFS')
+        ety = rng.choice('IIFS') if rng.random() < 0.6 else rng.choice(RAW_ANY)      # elements of 1 … 40 bytes
         n = rng.choice([0, 1, 2, 3]) if rng.random() < 0.3 else rng.randrange(0, maxlen + 1)
         content = [g.spec(ety) for _ in range(n)]
         if n >= 2 and rng.random() < 0.3: content[rng.randrange(n)] = content[rng.randrange(n)]       # repeated elements
@@ -194,7 +200,12 @@ def map_keys(g, kty, n, colliding):
             if colliding: k = rng.choice([0, 4, 3]) + LCM * rng.randrange(0, 40) * rng.choice([1, 1, -1])
             else: k = g.int_()
             sp = f'i:{k}'
-        else: sp = 's:' + g.str_bytes(6).hex()
+        elif kty == 'S': sp = 's:' + g.str_bytes(6).hex()
+        else:      # plain struct keys: mostly differing in one late byte (equal prefixes: the comparison must look at the whole key)
+            kk = int(kty); nb = PSIZE[kk]
+            if rng.random() < 0.5: b = bytearray(nb); b[rng.randrange(nb)] = rng.randrange(256); b[-1] ^= rng.randrange(4)
+            else: b = bytearray(rng.randrange(256) for _ in range(nb))
+            sp = f'p{kk}:' + bytes(b).hex()
         if sp not in keys: keys.append(sp)
     return keys
 
@@ -240,7 +251,9 @@ def map_case(rng, name, rounds, maxn):
     anything else is the territory of known finding KF-C10-table-cmp."""
     g = G(rng); L = []
     for _ in range(rounds):
-        kty = rng.choice('IIS'); vty = rng.choice('ISF')
+        if rng.random() < 0.45: kty = rng.choice('IIS'); vty = rng.choice('ISF')
+        elif rng.random() < 0.7: kty, vty = rng.choice(WIDTH_PAIRS_TREE)                  # key and value of different sizes
+        else: kty = rng.choice('IS' + RAW_TREE); vty = rng.choice('ISF' + RAW_TREE)
         n = rng.randrange(0, 4) if rng.random() < 0.25 else rng.randrange(0, maxn + 1)
         keys = map_keys(g, kty, n, kty == 'I' and rng.random() < 0.6)
         entries = [(k, g.spec(vty)) for k in keys]
@@ -278,6 +291,72 @@ def map_case(rng, name, rounds, maxn):
             t6 = build_map(g, L, 'tab', 'I', rng.choice('ISF'), [], 'ctor'); L.append(f'assign {t6} {tr}'); L.append(f'eq {t6} {st[1]}')
     return Case(name, L)
 
+def tree_rem_case(rng, name, rounds, maxn):
+    """a Tree filled in random order, then emptied key by key: after every removal (of a leaf, of a node with one child, of a
+    node with two children — whose in-order neighbour's key and value are then moved into it) it is compared with a Tree that
+    is built directly from the remaining pairs, copied and assigned. Key and value types of different sizes."""
+    g = G(rng); L = []
+    for _ in range(rounds):
+        kty, vty = rng.choice(WIDTH_PAIRS_TREE) if rng.random() < 0.8 else (rng.choice('IS' + RAW_TREE), rng.choice('ISF' + RAW_TREE))
+        n = rng.randrange(3, maxn + 1)
+        keys = map_keys(g, kty, n, False) if kty != 'I' or rng.random() < 0.5 else [f'i:{k}' for k in rng.sample(range(-300, 500), n)]
+        entries = [(k, g.spec(vty)) for k in keys]
+        hist = build_map(g, L, 'tre', kty, vty, entries, rng.choice(['ctor', 'set', 'shuffle', 'shuffle', 'update']))
+        left = list(entries); order = list(entries); rng.shuffle(order)
+        for i, (k, _) in enumerate(order[: rng.randrange(1, n + 1)]):
+            L.append(f'rem {hist} {k}'); left = [e for e in left if e[0] != k]
+            if i % max(2, n // 12) == 0 or rng.random() < 4.0 / (n + 8):
+                ref = build_map(g, L, 'tre', kty, vty, left, rng.choice(['ctor', 'set', 'rev', 'shuffle']))
+                L.append(f'eq {hist} {ref}')
+                r = rng.random()
+                if r < 0.3: c = g.fresh(); L.append(f'copy {c} {hist}'); L.append(f'eq {c} {ref}')
+                elif r < 0.5: L.append(f'assign {ref} {hist}'); L.append(f'eq {ref} {hist}')
+                elif r < 0.65:
+                    tb = build_map(g, L, 'tab', kty, vty, left, 'shuffle'); L.append(f'heq {tb} {hist}')
+            if rng.random() < 0.15 and left:      # an insertion or an update in between
+                k2, v2 = rng.choice(left); v3 = g.spec(vty); L.append(f'set {hist} {k2} {v3}'); left = [(a, v3 if a == k2 else b) for a, b in left]
+    return Case(name, L)
+
+def table_wide_case(rng, name, rounds, maxn):
+    """a Table with keys and values of any sizes (also 1, 4, 12 bytes: rounded up to words in the slot) driven through insertions
+    into probe clusters, removals with back-shift, growing and shrinking rehashes and reserves; its hash is compared with Tables
+    (and, for Tree-compatible types, Trees) built directly from the same pairs, and with its copy."""
+    g = G(rng); L = []
+    for _ in range(rounds):
+        kty, vty = rng.choice(WIDTH_PAIRS_TABLE) if rng.random() < 0.8 else (rng.choice('IS' + RAW_ANY), rng.choice('ISF' + RAW_ANY))
+        n = rng.randrange(2, maxn + 1)
+        keys = map_keys(g, kty, n, kty == 'I' and rng.random() < 0.7)
+        cur = {}
+        t = g.fresh(); L.append(f'tab {t} {rng.choice("SH")} {kty} {vty}')
+        treeok = all(c in 'ISF' + RAW_TREE for c in (kty, vty))
+        for step in range(rng.randrange(n, 3 * n + 1)):
+            r = rng.random()
+            if r < 0.55 or not cur:
+                k = rng.choice(keys); v = g.spec(vty); L.append(f'set {t} {k} {v}'); cur[k] = v
+            elif r < 0.9:
+                k = rng.choice(list(cur)); L.append(f'rem {t} {k}'); del cur[k]
+            else:
+                L.append(f'resize {t} {len(cur) + rng.randrange(0, 25)}')
+            if step % 4 == 3 or rng.random() < 0.15:
+                es = list(cur.items())
+                ref = build_map(g, L, 'tab', kty, vty, es, rng.choice(['ctor', 'set', 'shuffle']), allow_resize=False); L.append(f'heq {t} {ref}')
+                r = rng.random()
+                if r < 0.3: c = g.fresh(); L.append(f'hcopy {c} {t}'); L.append(f'heq {c} {ref}')
+                elif r < 0.5 and treeok: tr = build_map(g, L, 'tre', kty, vty, es, 'shuffle'); L.append(f'heq {tr} {t}')
+                elif r < 0.65: L.append(f'hassign {ref} {t}'); L.append(f'heq {ref} {t}')
+        # the same map on layout-independent Tables (≤ 4 Int keys, distinct residues modulo 5): eq / copy / assign with these value types
+        m = rng.randrange(1, 5); res = rng.sample(range(5), m)
+        sk = [(f'i:{r + LCM * rng.randrange(0, 60)}', g.spec(vty)) for r in res]
+        a = build_map(g, L, 'tab', 'I', vty, sk, rng.choice(['ctor', 'set', 'shuffle']), allow_resize=False)
+        extra = [r for r in range(5) if r not in res]
+        b = g.fresh(); L.append(f'tab {b} H I {vty}')
+        pend = list(sk); rng.shuffle(pend)
+        junk = [(f'i:{r + LCM * rng.randrange(0, 60)}', g.spec(vty)) for r in extra[:1]] if len(sk) < 4 else []
+        for k, v in pend[:1] + junk + pend[1:]: L.append(f'set {b} {k} {v}')
+        for k, _ in junk: L.append(f'rem {b} {k}')
+        L.append(f'eq {a} {b}'); c = g.fresh(); L.append(f'copy {c} {b}'); L.append(f'eq {c} {a}'); L.append(f'assign {a} {c}'); L.append(f'eq {b} {a}')
+    return Case(name, L)
+
 def fuzz_case(rng, name, nops):
     """random op sequences over a pool (invalid combinations are refused alike by both sides)"""
     g = G(rng); L = []
@@ -288,15 +367,15 @@ def fuzz_case(rng, name, nops):
     for _ in range(nops):
         r = rng.random()
         if r < 0.15 or len(pool) < 4:
-            ty = rng.choice('IFS'); i = g.fresh(); cls = rng.choice('SHE'); L.append(f'new {i} {cls} {g.spec(ty)}'); pool[i] = ('v', ty, 0, cls)
+            ty = rng.choice('IFS' + 'IFS' + RAW_ANY); i = g.fresh(); cls = rng.choice('SHE'); L.append(f'new {i} {cls} {g.spec(ty)}'); pool[i] = ('v', ty, 0, cls)
         elif r < 0.25:
-            ty = rng.choice('IFS'); kind = rng.choice(['arr', 'lst']); i = g.fresh(); n = rng.randrange(0, 6)
+            ty = rng.choice('IFS' + 'IFS' + RAW_ANY); kind = rng.choice(['arr', 'lst']); i = g.fresh(); n = rng.randrange(0, 6)
             L.append(f'{kind} {i} {rng.choice("SH")} {ty}' + ''.join(' ' + g.spec(ty) for _ in range(n))); pool[i] = (kind, ty, n, 'H')
         elif r < 0.30:
             items = [j for j, v in pool.items() if v[0] == 'v']; rng.shuffle(items); items = items[:rng.randrange(0, 4)]
             i = g.fresh(); cls = rng.choice('SHH'); L.append(f'tup {i} {cls}' + ''.join(f' {j}' for j in items)); pool[i] = ('tup', '?', len(items), cls)
         elif r < 0.36:
-            i = g.fresh(); kty = rng.choice('IS'); vty = rng.choice('IFS'); n = rng.randrange(0, 4)
+            i = g.fresh(); kty = rng.choice('IISS' + RAW_TREE); vty = rng.choice('IFS' + RAW_TREE); n = rng.randrange(0, 7)
             ks = map_keys(g, kty, n, False)
             L.append(f'tre {i} H {kty} {vty}' + ''.join(f' {k} {g.spec(vty)}' for k in ks)); pool[i] = ('tre', kty + vty, n, 'H')
         elif r < 0.55:
@@ -340,28 +419,52 @@ class C10(Spec):
                   'the same hash — robin-hood re-insertion keeps the multiset of entries — while eq(copy(t), t) itself holds only when the slot orders agree '
                   '(known finding F06, refuted on a witness); every Tree reached from the empty Tree by any history of set/rem is strictly descending, so its copy is eq, and two histories ending in the '
                   'same set of entries give eq Trees with equal hashes; '
-                  'swap exchanges the two values. The model is tied to the code by the translator (constants, steps, '
-                  'folds) and by op files run on both.')
+                  'swap exchanges the two values. Elements of any width: keys, values and sequence elements are values of any size (Int, String, '
+                  'plain structs of 1..40 bytes); the model moves an element a container already holds through an explicit memcpy on 64-bit words '
+                  '(blit) with the offsets and widths the translator extracts from Tree_Rem / Tree_Alloc / Tree_Key / Tree_Val, Table_Step / '
+                  'Table_Key / Table_Val / Table_Set_Move(move) / Table_Rehash / Table_Rem and Array_Step / Array_Item / Array_Pop_At / Array_Push_At; '
+                  'proved for every header/key/value width: those widths cover the element (C10_move_widths_cover, about the generated definitions), '
+                  'the memcpy of Tree_Rem leaves the whole in-order neighbour in the node, a slot memcpy of Table_Step and the two memcpys of '
+                  'Table_Set_Move(move) carry whole slots, so Table_Set / Table_Rem / Table_Rehash / Table_New compute the slot arrays of the '
+                  'entry-level Table model, and the memmoves of Array_Pop_At / Array_Push_At remove / insert exactly one element; Tree_Set and '
+                  'Tree_Rem on every search-tree shape act on the iteration sequence as insertion into / removal from a strictly descending list, '
+                  'and every shape reached by any history of set / rem / order-preserving relinking (the rotations) keeps the invariant '
+                  '(a narrowed relocation is refuted on a witness). The model is tied to the code by the translator (constants, steps, '
+                  'folds, widths) and by op files run on both.')
     level_note = ('Trusted: Lean kernel; the regex translator g_hash.py; harness/driver comparison (testing); little-endian 8-byte load; the bit-level model '
                   'of Float_Cmp (sign of the IEEE difference, no flush-to-zero) which is tested, not proved. Not covered: NaN (eq(NaN,x) holds for every x — '
                   'reported as a known-finding candidate), nested containers in the executable model (the lifting theorems are polymorphic), Table eq '
-                  'outside layout-independent tables (known finding).')
+                  'outside layout-independent tables (known finding). The Tree of this engine is a search tree of entries without colours: the '
+                  'rebalancing (Tree_Set_Fix / Tree_Rem_Fix: relinking and recolouring only, no payload move — checked by the translator) is '
+                  'abstracted as any order-preserving relinking, the theorems hold for every shape; the shape and balance the C code produces are '
+                  'property C03 (engine tree). Element memory is modelled at word granularity (a struct whose size is not a multiple of 8 is '
+                  'zero-padded to the container\'s rounded size).')
     rule = ('op files: (a) hash_data on every length 0..64 (random, constant, one-bit neighbours) and random longer inputs, each also at 8 alignments; '
             '(b) scalars of every type in the stack/heap/embedded allocation classes, compared pairwise, copied, assigned, put, swapped, through Ref/Box; '
             '(c) one target sequence built as Array/List/Tuple through 6 histories (constructor, push, push_at front, superset+pop_at+reserve, concat of '
             'halves, truncation+set), all pairs compared across kinds, copies, assignments, permutations, prefixes, swaps; (d) one target map built as Tree '
             'and Table through 7 histories (constructor, insertion orders, updates, extra keys removed, reserve, refill) with Int keys colliding modulo '
             '5/11/23/53 and String keys: Trees compared/copied/assigned, Tables hashed against each other and the Trees, eq/copy only for layout-independent '
-            'Tables; (e) random op sequences. Every op prints the value (Table: slot array) and the hash, compared with the Lean model. '
+            'Tables; (e) random op sequences; (f) element, key and value types of different sizes throughout (c)-(e): Int/String/Float and plain '
+            'structs of 1, 4, 8, 12, 16, 24, 40 bytes (Tree: multiples of 8 only), narrow key with wide value, wide key with narrow value; a Tree filled '
+            'in random order and emptied key by key (removals of leaves, one-child and two-children nodes: the in-order neighbour is relocated), '
+            'compared after each removal with a directly built Tree, copied, assigned; a Table of such types through insertions into probe clusters, '
+            'removals with back-shift, growing/shrinking rehashes and reserves, hashed against directly built Tables/Trees and its copy; Arrays/Lists of '
+            'such elements through removals and insertions in the middle. Every op prints the value (Table: slot array) and the hash, compared with the Lean model '
+            '(which performs every element move with the width extracted from the source); the harness counts two-children removals and shifting '
+            'removals on wide entries (I lines). '
             'non-trivial item = a distinct observation line of an eq/heq/copy/assign/swap op that was executed (not refused), or of hash_data with len>0.')
     trusted_base = ('translate/g_hash.py generator Hash (regex over hash_data, Int_Hash, Float_Hash, String_Hash, Type_Hash, the five container hashes, '
-                    'the hash/cmp/assign/swap/copy defaults, Table_Primes)',
+                    'the hash/cmp/assign/swap/copy defaults, Table_Primes; the size/offset expressions of Tree_Alloc/Key/Val/Rem, Table_Step/Key/Val/'
+                    'Set_Move/Rehash/Rem, Array_Step/Item/Pop_At/Push_At)',
                     'harness/h_hash.c + lean/Driver/Hash.lean (correspondence is testing)',
                     'Cello.Hash.floatCmp: bit-level model of `c = a - b; sign(c)` for doubles (tested on boundary values, not proved)',
                     'little-endian memcpy of 8 bytes into a uint64_t (x86-64)')
     assumptions = ('Float values are not NaN (eq(NaN, x) is true for every x: candidate known finding KF-C10-float-nan)',
                    'Table eq/copy-eq only for tables whose slot order is determined by their contents (known finding KF-C10-table-cmp, F06)',
-                   'containers hold scalar elements (Int, Float, String); Tuples hold distinct scalar objects (a repeated object in a Tuple breaks Tuple iteration: other finding)',
+                   'containers hold scalar elements (Int, Float, String, plain structs of 1..40 bytes); Tuples hold distinct scalar objects (a repeated object in a Tuple breaks Tuple iteration: other finding)',
+                   'Tree key and value types have sizes that are multiples of 8 (Tree_Alloc does not round: known finding KF-C19-tree-misaligned-header)',
+                   'copy/assign of a Table of arbitrary layout is observed through content and hashes only (hcopy/hassign): its cmp is KF-C10-table-cmp territory',
                    'assign(x, x) on the same object and growth of a List by resize are not exercised',
                    'strings contain no NUL; hash values compared on a little-endian 64-bit platform')
     def cases(self, rng, tier, boost=1):
@@ -370,6 +473,8 @@ class C10(Spec):
         for i in range((30 if quick else 100) * boost): cs.append(scalar_case(rng, f'scalar{i}', 30 if quick else 60))
         for i in range((40 if quick else 130) * boost): cs.append(seq_case(rng, f'seq{i}', 12 if quick else 20, 10 if quick else (24 if i % 4 else 120)))
         for i in range((40 if quick else 130) * boost): cs.append(map_case(rng, f'map{i}', 8 if quick else 12, 12 if quick else (30 if i % 4 else 110)))
+        for i in range((30 if quick else 100) * boost): cs.append(tree_rem_case(rng, f'treerem{i}', 6 if quick else 10, 16 if quick else (40 if i % 4 else 120)))
+        for i in range((24 if quick else 80) * boost): cs.append(table_wide_case(rng, f'tabwide{i}', 5 if quick else 8, 14 if quick else (30 if i % 4 else 120)))
         for i in range((30 if quick else 100) * boost): cs.append(fuzz_case(rng, f'fuzz{i}', 300 if quick else 800))
         return cs
     def nontrivial_items(self, case, c_out, m_out):
@@ -377,15 +482,16 @@ class C10(Spec):
         for l in core.lines_with('O ', c_out):
             w = l.split(' ', 2)
             if len(w) < 3: continue
-            if w[1] in ('eq', 'heq', 'copy', 'assign', 'swap') or (w[1] == 'D' and not l.startswith('O D len=0')):
+            if w[1] in ('eq', 'heq', 'copy', 'assign', 'hcopy', 'hassign', 'swap') or (w[1] == 'D' and not l.startswith('O D len=0')):
                 out.add(hash(l))
         return out
     def model_selfcheck(self, case, m_out):
-        """the model departs from its own reference when a Tree state is not strictly descending or a Table holds two eq keys
-        (the hypotheses the copy/assign theorems make about their source)"""
+        """the model departs from its own reference when a Tree state is not strictly descending, a Table holds two eq keys or a
+        container holds an element that does not fill the words of its type (the hypotheses the copy/assign/history/move theorems
+        make about their source)"""
         for l in core.lines_with('S ', m_out):
             kv = dict(x.split('=') for x in l[2:].split() if '=' in x)
-            if int(kv.get('tree_not_descending', 0)) or int(kv.get('table_keys_not_distinct', 0)):
+            if int(kv.get('tree_not_descending', 0)) or int(kv.get('table_keys_not_distinct', 0)) or int(kv.get('unsized_states', 0)):
                 return f'invariant of the model violated on this input: {l}'
         return None
     def stats(self, case, c_out, m_out, acc):
